@@ -346,7 +346,7 @@ where
     /// `self` with the RNGs re-seeded.
     pub fn set_seed(mut self, seed: u64) -> Self {
         for (i, chain) in self.chains.iter_mut().enumerate() {
-            let chain_seed = seed + i as u64 + 1;
+            let chain_seed = seed.wrapping_add(i as u64).wrapping_add(1);
             chain.rng = SmallRng::seed_from_u64(chain_seed);
         }
         self
